@@ -493,17 +493,24 @@ func (d decoder) name(s *cryptobyte.String) (string, error) {
 
 func (d decoder) nameLabels(s *cryptobyte.String) ([]string, error) {
 	var labels []string
+	// A pointer must point before the start of the run of labels it was
+	// found in, so that every jump moves strictly backwards and the walk
+	// terminates.
+	var start uintptr
+	if !s.Empty() {
+		start = uintptr(unsafe.Pointer(&(*s)[0]))
+	}
 	for {
 		for !s.Empty() && (*s)[0]&0xc0 == 0xc0 { // pointer
-			current := uintptr(unsafe.Pointer(&(*s)[0]))
 			var offset uint16
 			if !s.ReadUint16(&offset) {
 				return nil, ErrDecodeError
 			}
 			offset &= 0x3fff
-			if int(offset) >= len(d.raw) || uintptr(unsafe.Pointer(&d.raw[offset])) >= current {
+			if int(offset) >= len(d.raw) || uintptr(unsafe.Pointer(&d.raw[offset])) >= start {
 				return nil, ErrDecodeError
 			}
+			start = uintptr(unsafe.Pointer(&d.raw[offset]))
 			ss := cryptobyte.String(d.raw[offset:])
 			s = &ss
 		}
